@@ -92,6 +92,11 @@ class Chain:
         na = self.now + tw.get("not_after", 365 * DAY)
         subj = X.name(tw.get("subject_cn", self.tag + " " + who))
         iss = X.name(tw.get("issuer_cn", self.tag + " " + issuer))
+        # whole names given as (attribute, value) lists: names that are related to, but not equal to, the default ones
+        if "subject_rdns" in tw:
+            subj = X.name(tw["subject_rdns"][-1][1], extra=tw["subject_rdns"][:-1], last=tw["subject_rdns"][-1][0])
+        if "issuer_rdns" in tw:
+            iss = X.name(tw["issuer_rdns"][-1][1], extra=tw["issuer_rdns"][:-1], last=tw["issuer_rdns"][-1][0])
         serial = int.from_bytes(hashlib.sha256((self.tag + who).encode()).digest()[:12], "big") | (1 << 95)
         t = X.tbs(serial, iss, nb, na, subj, pub, exts, version=tw.get("version", 2))
         return X.cert(t, d_i, pub_i, bad_sig=tw.get("bad_sig"))
